@@ -67,7 +67,7 @@ def judge(ck, jobs, res, label):
     if r["mismatches"]:
       m = r["mismatches"][0]
       ck.violation(f"tf|{sig}|{m['clause']}", f"{label}: step {m['step']}: {m['clause']} ({m['detail']}); cfg={c} "
-                   f"geo={j['geo']}", {"job": j, "mismatches": r["mismatches"][:8]})
+                   f"geo={j['geo']}", {"worker": "harness.workers.tf_terms", "x64": j["x64"], "job": j, "mismatches": r["mismatches"][:8]})
     else:
       ck.traces_ok(1)
 
@@ -105,7 +105,7 @@ def probe_leg(ck, n):
     else:
       ck.violation(f"tf|probe|{v['verdict']}",
                    f"coefficient probe: trace rejected at step {v['l'] - 1} ({v['verdict']}); cfg={t['cfg']}",
-                   {"trace": t, "verdict": v})
+                   {"trace_module": "TFTerms_Trace", "trace": t, "verdict": v})
   ck.sample({"probe_trace": {"cfg": traces[0]["cfg"], "coef_row_T": traces[0]["coef"][-1], "cx": traces[0]["cx"]}})
   bad = copy.deepcopy(traces[0])
   m, e = bad["coef"][-1][-1]
